@@ -5,6 +5,7 @@ cd /verif
 [ $# -eq 0 ] && set -- $(ls -d seeded/*/ | xargs -n1 basename)
 for s in "$@"; do
   id=${s%%-*}
+  if grep -q '"superseded"' seeded/$s/meta.json 2>/dev/null; then echo "$s superseded (see meta.json)"; continue; fi
   out=$(timeout 2400 tools/seedtest.sh /verif/seeded/$s/patch.diff $id 2>&1)
   git -C /repo checkout -- . 2>/dev/null
   rc=$(echo "$out" | grep -o "exit=[0-9]*" | head -1)
